@@ -153,3 +153,185 @@ theorem step_between_reachable_is_legal {w w' : World} (r' : C14.Reachable w') (
   legal_of_wf_post (ringOf w) op ht (hstep ▸ reachable_lists_wellformed r')
 
 end Tromp.C14Ring
+
+namespace Tromp.C14Ring
+open Tromp Tromp.Ring World
+
+/-! ### a worked instance of the chain: the expectation statement
+
+C++ `make_expectation` → `hook_last` (= `this :: list`, `Tie/NoMatch.lean: hook_last_tie`) → `list::push_front`
+(`Tie/Ring.lean: ring_push_front_tie`) on the heap; model: the `expect` step conses onto the active list
+(`Tie/SemExpect.lean: expect_sem`).  Here: at the level of ring families the `expect` step **is** `pushFront`, it is
+legal in every reachable world, and therefore (`rep_step`) any heap that represents the lists before represents the lists
+after the C++ `push_front`. -/
+
+theorem headsOf_congr {w w' : World} (hn : w'.nextO = w.nextO) (hm : ∀ o, (w'.mocks o).isSome = (w.mocks o).isSome) :
+    headsOf w' = headsOf w := by
+  unfold headsOf
+  rw [hn]
+  congr 1
+  funext o
+  have := hm o
+  cases h1 : w'.mocks o <;> cases h2 : w.mocks o <;> simp [h1, h2] at this ⊢
+
+theorem expect_world (w : World) (e : Nat) (x : ExpectSpec) (m : Mock) (hl : w.legal (.expect e x) = true)
+    (hm : w.mocks x.obj = some m) (hok : ¬ (x.rt = true ∧ x.hi < x.lo)) :
+    (w.step (.expect e x)).1.nextO = w.nextO ∧
+    (w.step (.expect e x)).1.mocks = upd w.mocks x.obj
+      { m with active := fun g => if g = x.fn then e :: m.active g else m.active g } := by
+  have hleg : (!w.legal (.expect e x)) = false := by simp [hl]
+  have hc : (x.rt && decide (x.hi < x.lo)) = false := by
+    cases hr : x.rt
+    · simp
+    · simp only [Bool.true_and, decide_eq_false_iff_not]; intro h; exact hok ⟨hr, h⟩
+  simp only [World.step, hleg, Bool.false_eq_true, if_false, hc, hm]
+  refine ⟨?_, ?_⟩
+  · simp only [setMock, setExp]
+    exact foldl_setSeqPending_nextO _ _ _
+  · simp only [setMock, setExp]
+    rw [show (register { w with nextE := e + 1 } (Owner.exp e) x.seqs).mocks = w.mocks from
+      foldl_setSeqPending_mocks _ _ _]
+
+/-- **the `expect` step is `push_front`** on the ring family of the world. -/
+theorem expect_is_pushFront (w : World) (e : Nat) (x : ExpectSpec) (m : Mock) (hl : w.legal (.expect e x) = true)
+    (hm : w.mocks x.obj = some m) (hok : ¬ (x.rt = true ∧ x.hi < x.lo)) :
+    ringOf (w.step (.expect e x)).1 = (ringOf w).step (.pushFront (Addr.act x.obj x.fn) (Addr.exp e)) := by
+  obtain ⟨hn, hmk⟩ := expect_world w e x m hl hm hok
+  have hheads : headsOf (w.step (.expect e x)).1 = headsOf w := by
+    refine headsOf_congr hn (fun o => ?_)
+    rw [hmk]
+    by_cases ho : o = x.obj
+    · subst ho; simp [upd, hm]
+    · simp [upd, ho]
+  simp only [ringOf, Abs.step, Abs.set, hheads]
+  congr 1
+  funext a
+  cases a with
+  | act o f =>
+    simp only [listsOf, hmk]
+    by_cases ho : o = x.obj
+    · subst ho
+      by_cases hf : f = x.fn
+      · subst hf; simp [upd, hm]
+      · simp [upd, hm, hf]
+    · simp [upd, ho]
+  | sat o f =>
+    simp only [listsOf, hmk]
+    by_cases ho : o = x.obj
+    · subst ho; simp [upd, hm]
+    · simp [upd, ho]
+  | exp k => simp [listsOf]
+
+/-- … it is a legal ring operation in every reachable world … -/
+theorem expect_pushFront_legal {w : World} (r : C14.Reachable w) (e : Nat) (x : ExpectSpec) (m : Mock)
+    (hl : w.legal (.expect e x) = true) (hm : w.mocks x.obj = some m) (hok : ¬ (x.rt = true ∧ x.hi < x.lo)) :
+    (ringOf w).legal (.pushFront (Addr.act x.obj x.fn) (Addr.exp e)) := by
+  refine step_between_reachable_is_legal (w' := (w.step (.expect e x)).1) ?_ _ ?_ (expect_is_pushFront w e x m hl hm hok).symm
+  · obtain ⟨ops, rfl⟩ := r
+    exact ⟨ops ++ [.expect e x], by simp [World.run_append, World.run]⟩
+  · -- typing: the active list object of (obj, fn) exists
+    show Addr.act x.obj x.fn ∈ headsOf w
+    have hfn : x.fn < nFns := by
+      simp only [World.legal, Bool.and_eq_true, decide_eq_true_eq] at hl; exact hl.1.1.1.1.2
+    have hobj : x.obj < w.nextO := by
+      apply Decidable.byContradiction; intro hge
+      have := (C14.reachable_WF r).freshMock x.obj (by omega)
+      rw [hm] at this; cases this
+    unfold headsOf
+    refine List.mem_flatMap.mpr ⟨x.obj, List.mem_range.mpr hobj, ?_⟩
+    rw [hm]
+    exact List.mem_flatMap.mpr ⟨x.fn, List.mem_range.mpr hfn, by simp⟩
+
+/-- … so the heap after the C++ `push_front` represents the lists of the world after the `expect` step. -/
+theorem expect_heap (h : Heap Addr) {w : World} (r : C14.Reachable w) (R : Rep h (ringOf w)) (e : Nat) (x : ExpectSpec) (m : Mock)
+    (hl : w.legal (.expect e x) = true) (hm : w.mocks x.obj = some m) (hok : ¬ (x.rt = true ∧ x.hi < x.lo)) :
+    Rep (pushFront (Addr.act x.obj x.fn) (Addr.exp e) h) (ringOf (w.step (.expect e x)).1) := by
+  rw [expect_is_pushFront w e x m hl hm hok]
+  exact rep_step R _ (expect_pushFront_legal r e x m hl hm hok)
+
+end Tromp.C14Ring
+
+namespace Tromp.C14Ring
+open Tromp Tromp.Ring World
+
+/-! ### second worked instance: the end of an expectation's lifetime (`~call_matcher` → `this->unlink()`) -/
+
+theorem unlinkExp_isSome (w : World) (e : Nat) (x : Exp) (o : Nat) :
+    ((w.unlinkExp e x).mocks o).isSome = (w.mocks o).isSome := by
+  unfold World.unlinkExp
+  cases hm : w.mocks x.obj with
+  | none => rfl
+  | some m =>
+    simp only
+    split
+    · rfl
+    · by_cases ho : o = x.obj
+      · subst ho; simp [hm]
+      · rw [setMock_mocks_other _ _ ho]
+
+theorem map_exp_filter (l : List Nat) (e : Nat) (hnd : l.Nodup) :
+    (l.filter (· ≠ e)).map Addr.exp = (l.map Addr.exp).erase (Addr.exp e) := by
+  rw [(hnd.map exp_injective).erase_eq_filter]
+  rw [List.filter_map]
+  congr 1
+  apply List.filter_congr
+  intro k _
+  by_cases hk : k = e <;> simp [Function.comp, hk]
+
+/-- **the `release` step is `unlink`** of the expectation on the ring family of the world. -/
+theorem release_is_unlink {w : World} (h : WF w) (e : Nat) (x : Exp) (hx : w.exps e = some x) :
+    ringOf (w.releaseExp e x).1 = (ringOf w).step (.unlink (Addr.exp e)) := by
+  obtain ⟨_, _, hnO, hlists⟩ := h.unlink_lists e x hx
+  have hmocks : (w.releaseExp e x).1.mocks = (w.unlinkExp e x).mocks := by
+    unfold World.releaseExp; simp only [setExp_mocks, retireOwn_mocks]
+  have hnext : (w.releaseExp e x).1.nextO = w.nextO := by
+    unfold World.releaseExp
+    simp only [setExp]
+    show (World.retireOwn _ _ _).nextO = _
+    rw [show (World.retireOwn (w.unlinkExp e x) (Owner.exp e) x.seqs).nextO = (w.unlinkExp e x).nextO from
+      foldl_setSeqPending_nextO _ _ _, hnO]
+  have hheads : headsOf (w.releaseExp e x).1 = headsOf w :=
+    headsOf_congr hnext (fun o => by rw [hmocks]; exact unlinkExp_isSome w e x o)
+  simp only [ringOf, Abs.step, hheads]
+  congr 1
+  funext a
+  cases a with
+  | act o f =>
+    simp only [listsOf, hmocks]
+    cases hm' : (w.unlinkExp e x).mocks o with
+    | none =>
+      have := unlinkExp_isSome w e x o; rw [hm'] at this
+      cases hm0 : w.mocks o with
+      | none => simp
+      | some m0 => rw [hm0] at this; cases this
+    | some m' =>
+      obtain ⟨m0, hm0, hf⟩ := hlists o m' hm'
+      simp only [hm0, (hf f).1]
+      exact map_exp_filter _ e (h.actNodup o m0 f hm0)
+  | sat o f =>
+    simp only [listsOf, hmocks]
+    cases hm' : (w.unlinkExp e x).mocks o with
+    | none =>
+      have := unlinkExp_isSome w e x o; rw [hm'] at this
+      cases hm0 : w.mocks o with
+      | none => simp
+      | some m0 => rw [hm0] at this; cases this
+    | some m' =>
+      obtain ⟨m0, hm0, hf⟩ := hlists o m' hm'
+      simp only [hm0, (hf f).2]
+      exact map_exp_filter _ e (h.satNodup o m0 f hm0)
+  | exp k => simp [listsOf]
+
+/-- … so after `~call_matcher`'s `unlink()` the heap represents the lists of the world without the expectation, and no
+    pointer in any ring refers to it any more (`unlinked_unreferenced`) — whatever the order of destructions before. -/
+theorem release_heap (h : Heap Addr) {w : World} (r : C14.Reachable w) (R : Rep h (ringOf w)) (e : Nat) (x : Exp)
+    (hx : w.exps e = some x) :
+    Rep (unlink (Addr.exp e) h) (ringOf (w.releaseExp e x).1) := by
+  rw [release_is_unlink (C14.reachable_WF r) e x hx]
+  refine rep_step R (.unlink (Addr.exp e)) ?_
+  show Addr.exp e ∉ headsOf w
+  intro hin
+  obtain ⟨o, f, m, _, ha⟩ := mem_headsOf hin
+  rcases ha with ha | ha <;> cases ha
+
+end Tromp.C14Ring
